@@ -244,7 +244,7 @@ def check_optimiser(ctx: Ctx, workers: int, only: dict | None = None) -> None:
                                       "dtype": only["dtype"], "integer": bool(np.all(np.asarray(only["matrix"]) == np.round(np.asarray(only["matrix"])))), "record": True}])
     # ---- model: bookkeeping around an adversarial RCM step |= contract
     base = "SPECIFICATION Spec\nCONSTANTS\n  N = {n}\n  Vals <- {v}\n  ReturnBest = {rb}\nINVARIANT AccTracks\nINVARIANT CandidatesHonest\nINVARIANT Contract\nINVARIANT NeverRaises\nPROPERTY Terminates\n"
-    for nm, n, v in [("n3", 3, "cVals3")] + ([] if ctx.quick else [("n4", 4, "cVals2")]):
+    for nm, n, v in [("n3", 3, "cVals3")] + ([] if ctx.quick else [("n4", 4, "cVals01")]):
         res = run_tlc("MCBandwidthOpt", None, workdir=ctx.work, name=f"opt_{nm}", workers=workers, cfg_text=base.format(n=n, v=v, rb="TRUE"),
                       coverage=(nm == "n3"), timeout=3000)
         ctx.add_tlc(res)
